@@ -172,6 +172,7 @@ func registryAgreement(c *Ctx) (wr, rd []registration) {
 
 // sniffTable folds the JSON branch of SniffReader for one declaration.
 type sniffer struct {
+	p      *Program
 	d      *declInfo
 	recObj types.Object
 	block  []ast.Stmt
@@ -183,7 +184,7 @@ func findSniffer(c *Ctx, rule string) *sniffer {
 	if d == nil {
 		return nil
 	}
-	s := &sniffer{d: d, fields: map[string]string{}}
+	s := &sniffer{p: c.P, d: d, fields: map[string]string{}}
 	// the struct handed to (*json.Decoder).Decode / json.Unmarshal
 	ast.Inspect(d.fd.Body, func(n ast.Node) bool {
 		ce, ok := n.(*ast.CallExpr)
@@ -290,6 +291,41 @@ func (s *sniffer) eval(p *Program, decl map[string]string) []value {
 
 func (s *sniffer) literals() (spec, spdx []string) {
 	seen := map[string]bool{}
+	// keys of package-level map tables indexed by a declaration field
+	ev := &evaluator{p: theProgramFor(s)}
+	for _, st := range s.block {
+		ast.Inspect(st, func(n ast.Node) bool {
+			ix, ok := n.(*ast.IndexExpr)
+			if !ok {
+				return true
+			}
+			f := selectorField(s.d.pkg, ix.Index)
+			id, isID := ix.X.(*ast.Ident)
+			if f == nil || !isID {
+				return true
+			}
+			pv, isVar := s.d.pkg.TypesInfo.Uses[id].(*types.Var)
+			if !isVar || pv.Pkg() == nil || pv.Parent() != pv.Pkg().Scope() {
+				return true
+			}
+			tbl := ev.packageTable(pv)
+			if tbl.k != vMap {
+				return true
+			}
+			for _, k := range tbl.mkey {
+				if !k.isStr() || seen[f.Name()+k.str()] {
+					continue
+				}
+				seen[f.Name()+k.str()] = true
+				if f.Name() == s.fields["specVersion"] {
+					spec = append(spec, k.str())
+				} else if f.Name() == s.fields["spdxVersion"] {
+					spdx = append(spdx, k.str())
+				}
+			}
+			return true
+		})
+	}
 	for _, st := range s.block {
 		for _, sw := range findSwitches(st) {
 			if sw.Tag == nil {
@@ -634,3 +670,5 @@ func singleDispatch(c *Ctx) {
 	c.check(nU == 1 && okFmt, R, d.name, c.P.Pos(d.fd.Pos()), "one dispatch site fed by the stated or the detected format",
 		fmt.Sprintf("dispatch is not a single Unserialize call on GetFormatUnserializer(stated-or-detected format) (Unserialize calls: %d, format provenance ok: %v): auto-detected and explicit parsing can diverge", nU, okFmt))
 }
+
+func theProgramFor(s *sniffer) *Program { return s.p }
